@@ -309,6 +309,29 @@ def rule_e(model, rep):
     rep.check("hash = self.context.hash(password)" in qtext(fn), R, site("HtpasswdFile.set_password"), "self.context.hash(password)", "password hashed by the file's context")
 
 
+def rule_h(model, rep):
+    """the password reaches the context in the same form when it is set and when it is checked"""
+    R = "C16.i-password-form"
+    for cls in ("HtpasswdFile", "HtdigestFile"):
+        sp, cp = model.func(AP, cls + ".set_password"), model.func(AP, cls + ".check_password")
+
+        def prep(fn):
+            out = []
+            for x in walk_no_nested(fn):
+                if isinstance(x, ast.Assign) and any(ast.unparse(t) == "password" for t in x.targets) and not isinstance(x.value, ast.Name):
+                    par = model.unit(AP).parent(x)
+                    cond = ast.unparse(par.test) if isinstance(par, ast.If) else ""
+                    if "_UNSET" in cond:
+                        continue
+                    out.append(f"[{cond}] {ast.unparse(x)}")
+            enc = [ast.unparse(k.value) for c in walk_no_nested(fn) if isinstance(c, ast.Call) for k in c.keywords if k.arg == "encoding"]
+            return out, enc
+        a, b = prep(sp), prep(cp)
+        rep.check(a == b, R, site(cls + ".set_password") + " ~ check_password", f"set_password prepares {a}; check_password prepares {b}",
+                  "a text password is converted to bytes (file encoding) the same way before it is hashed and before it is verified",
+                  witness=f"{cls}(encoding='latin-1'): set_password('u', 'p\xe4ss') then check_password('u', 'p\xe4ss') is False (hashed as UTF-8, verified as latin-1)")
+
+
 def rule_f(model, rep):
     R = "C16.f-order-preservation"
     fn = model.func(AP, "_CommonFile._load_lines")
@@ -320,11 +343,15 @@ def rule_f(model, rep):
     txt = "\n".join(body)
     # 1 blank/comment lines accumulate
     rep.check("if not tmp or tmp.startswith(_BHASH):\n    skipped += line\n    continue" in txt, R, site("_CommonFile._load_lines"), "blank/comment -> skipped += line", "comments and blank lines are kept verbatim")
-    # 2 duplicates are kept as skipped text and never overwrite
+    # 2 a later duplicate of a user neither replaces the first entry nor travels into the output
     dup = next((s for s in loop.body if isinstance(s, ast.If) and ast.unparse(s.test) == "key in records"), None)
-    ok = dup is not None and "skipped += line" in qtext(dup) and isinstance(dup.body[-1], ast.Continue)
-    rep.check(ok, R, site("_CommonFile._load_lines"), ast.unparse(dup)[:100] if dup else "<none>", "a later duplicate of a user is kept as skipped text and does not replace the first entry",
-              witness="a file listing a user twice loads the second hash (Apache uses the first)")
+    ok = dup is not None and isinstance(dup.body[-1], ast.Continue) and not any(isinstance(x, ast.Assign) and ast.unparse(x.targets[0]).startswith("records[") for x in ast.walk(dup))
+    rep.check(ok, R, site("_CommonFile._load_lines"), ast.unparse(dup)[:100] if dup else "<none>", "a later duplicate of a user does not replace the first entry (Apache uses the first)",
+              witness="a file listing a user twice loads the second hash")
+    carried = dup is not None and any(isinstance(x, ast.AugAssign) and ast.unparse(x.target) == "skipped" for x in ast.walk(dup))
+    rep.check(not carried, R, site("_CommonFile._load_lines") + " duplicate line", "skipped += line  # in the `key in records` branch",
+              "a duplicate line is dropped, not kept as skipped text: kept text is written out again, so the user would appear twice in every export",
+              witness="HtpasswdFile.from_string(b'u:A\nu:OLD\n'): delete('u') then to_string() still contains 'u:OLD' -- the deleted user is back, with the old hash, after reload")
     # 3 pending skipped text is flushed before the record
     idx_flush = next((i for i, s in enumerate(loop.body) if isinstance(s, ast.If) and ast.unparse(s.test) == "skipped" and "source.append((_SKIPPED, skipped))" in qtext(s)), None)
     idx_rec = next((i for i, s in enumerate(loop.body) if ast.unparse(s) == "source.append((_RECORD, key))"), None)
@@ -336,7 +363,17 @@ def rule_f(model, rep):
         rep.check("skipped = b''" in qtext(loop.body[idx_flush]), R, site("_CommonFile._load_lines"), "skipped = b''", "flushed text is reset")
     # 4 trailing skipped text appended last; state published at the end
     after = [ast.unparse(s) for s in fn.body[fn.body.index(loop) + 1:]]
-    rep.check(any(a.startswith("if skipped.rstrip():\n    source.append((_SKIPPED, skipped))") for a in after), R, site("_CommonFile._load_lines"), "trailing skipped", "trailing comments are kept")
+    tk = next((s_ for s_ in fn.body[fn.body.index(loop) + 1:] if isinstance(s_, ast.If) and ast.unparse(s_.test) == "skipped.rstrip()"), None)
+    rep.check(tk is not None and any(ast.unparse(x) == "source.append((_SKIPPED, skipped))" for x in tk.body), R, site("_CommonFile._load_lines"), "trailing skipped", "trailing comments are kept")
+    # 4b the trailing chunk (the only one that can lack a final newline: last line of the file) is newline-terminated,
+    #    otherwise a record appended later is written onto the comment's line
+    tail_if = next((s for s in fn.body[fn.body.index(loop) + 1:] if isinstance(s, ast.If) and ast.unparse(s.test) == "skipped.rstrip()"), None)
+    terminated = tail_if is not None and any(isinstance(x, ast.If) and "endswith" in ast.unparse(x.test) and any(isinstance(y, ast.AugAssign) and ast.unparse(y.target) == "skipped" for y in x.body)
+                                             for x in tail_if.body)
+    terminated = terminated or any(isinstance(x, ast.If) and "endswith" in ast.unparse(x.test) and any(isinstance(y, (ast.AugAssign, ast.Assign)) and "line" in ast.unparse(y) for y in x.body) for x in loop.body)
+    rep.check(terminated, R, site("_CommonFile._load_lines") + " trailing text", "source.append((_SKIPPED, skipped))  # last chunk may lack its newline",
+              "kept text always ends with a newline, so that a record appended after it starts on a line of its own",
+              witness="HtpasswdFile.from_string(b'u1:A\n# note') ; set_hash('u2','B') ; to_string() == b'u1:A\n# noteu2:B\n' -- u2 is swallowed by the comment and gone after reload")
     rep.check(after[-2:] == ["self._records = records", "self._source = source"], R, site("_CommonFile._load_lines"), " | ".join(after[-2:]),
               "the new table and source list are installed together, after the whole input parsed",
               witness="a malformed line in the middle of a reload leaves half of the new content loaded")
@@ -396,3 +433,4 @@ def run(model, rep):
     rule_e(model, rep)
     rule_f(model, rep)
     rule_gh(model, rep)
+    rule_h(model, rep)
